@@ -139,8 +139,9 @@ CHECKS = {
               'repairs 2a0ae40, b9c0e0e): command_length equals the number of octets produced for all fifteen classes and every '
               'field assignment for which pdu() returns; struct pack/unpack are inverse on the representable range at any '
               'offset; the header parses back; decode(pdu(m)) = m is a theorem for the five body-less classes (every sequence '
-              'number, every status member) and for submit_sm_resp/deliver_sm_resp (every ASCII id up to 64 characters). For '
-              'submit_sm/deliver_sm/bind/bind_resp the round trip is NOT yet a theorem: it is decided by the octet-for-octet '
+              'number, every status member), for submit_sm_resp/deliver_sm_resp (every ASCII id up to 64 characters), for the three bind '
+              'requests (all fields SMPP allows) and the three bind responses (sc_interface_version absent or 0..255): 13 of 15 classes. '
+              'For submit_sm/deliver_sm the round trip is NOT yet a theorem: it is decided by the octet-for-octet '
               'correspondence of the model encoder and decoder with the code plus the round-trip predicate on generated '
               'messages (all alphabets, boundary lengths 0/254/255, TLVs of every value type, both time forms, payload).'),
         note=COMMON_NOTE + 'CPython codecs other than gsm0338/gsm0338_packed/ucs2/ascii/latin_1 and registered error handlers are opaque (not judged). Text outside the chosen alphabet under a lossy error mode, and an explicit gsm0338 encoding differing from the configured default, are outside the round-trip domain (see DESIGN.md).',
